@@ -42,6 +42,7 @@ def check(run: Run) -> None:
     run.rule("C04.R4", "check_ast(<emitted lambda>) dominates node construction in Select/SelectMany/Where")
     run.rule("C04.R5", "g_legal_capture_types is a subset of {str, int, float, bool, complex, bytes}")
     run.rule("C04.R6", "scope-merge precedence: closure variables (nonlocals) are applied after module globals")
+    run.rule("C04.R7", "the capture rewriter traverses every call completely (callee, arguments, keywords)")
     ctx = TermCtx(m, max_depth=2, opaque={"_parse_source_for_lambda", "as_literal", "global_getclosurevars", "remap_from_lambda", "_local_simplification", "parse_as_ast", "function_call", "clone_with_new_ast"}, identity={"lambda_unwrap"})
     cls = m.find_class("_rewrite_captured_vars", in_module="func_adl.util_ast")
     check_binders(run, ctx, m, cls, "C04.R1")
@@ -109,6 +110,18 @@ def check(run: Run) -> None:
         for a in unphi_terms(t):
             ok = a == nodea or (a[0] == "new" and a[1] == "Constant") or a[0] == "tvisit"
             run.check(ok, "C04.R2", va, s, "visit_Attribute returns the node, a folded Constant or the marked enum reference", f"visit_Attribute returns {show(a)[:100]}")
+
+    # ---------------- R7: visit_Call always traverses the whole call
+    rc = cls.methods.get("visit_Call")
+    if rc is None:
+        raise AnalysisError("anchor vanished: _rewrite_captured_vars.visit_Call")
+    frc = ctx.analysis(rc)
+    rcn = ("param", rc.pos_params[1])
+    for s_, n_ in frc.returns():
+        t = strip_sites(frc.term_of(s_.value, n_))
+        for a in unphi_terms(t):
+            base = a[1] if a[0] == "upd" else a
+            run.check(base == ("gvisit", rcn), "C04.R7", rc, s_, "visit_Call returns the generic_visit-ed call (arguments and keywords are rewritten too)", f"_rewrite_captured_vars.visit_Call returns {show(a)[:80]} on some path without visiting the call's arguments: captured variables inside them are not frozen (and never reach the constant gate)", "super().generic_visit(node)", show(a))
 
     # ---------------- R3: snapshot built eagerly
     init = cls.methods.get("__init__")
@@ -195,8 +208,9 @@ def check_binders(run: Run, ctx: TermCtx, m, cls: ClassInfo, rule: str) -> None:
         for c in pushes:
             t = strip_sites(fa.term_of(c.args[0]))
             # names of all targets of all generators
-            ok_t = ok_t or (contains(t, lambda s: s == ("attr", nodep, "generators")) and contains(t, lambda s: s[0] == "attr" and s[2] == "target") and contains(t, lambda s: s[0] == "attr" and s[2] == "id"))
-        run.check(ok_t, rule, h, h.node, "frame holds the names of every generator target", "the comprehension frame is not built from the Name nodes of all generators' targets")
+            whole = contains(t, lambda s: s[0] == "app" and s[1] == ("global", "ast.walk") and len(s[2]) == 1 and s[2][0][0] == "attr" and s[2][0][2] == "target")
+            ok_t = ok_t or (contains(t, lambda s: s == ("attr", nodep, "generators")) and whole and contains(t, lambda s: s[0] == "attr" and s[2] == "id"))
+        run.check(ok_t, rule, h, h.node, "frame holds every Name inside every generator target (tuple targets included)", "the comprehension frame is not built from all Name nodes found by walking each generator's target: tuple-unpacked loop variables (for pt, eta in ..) are not protected and are replaced by a captured value of the same name", "[n.id for g in node.generators for n in ast.walk(g.target) if isinstance(n, ast.Name)]")
         _paired(run, ctx, h, rule)
     # is_arg consults every frame
     ia = cls.methods.get("is_arg")
